@@ -9,6 +9,7 @@ import RSSched.Driver.Trans
 import RSSched.Driver.Sched
 import RSSched.Driver.Swaps
 import RSSched.Driver.Mcf
+import RSSched.Driver.Serve
 open RSSched RSSched.Driver
 
 def processCase (text : String) : Array String :=
@@ -22,6 +23,7 @@ def processCase (text : String) : Array String :=
     | "sched" => checkSched c
     | "swaps" => checkSwaps c
     | "mcf" => checkMcf c
+    | "serve" => checkServe c
     | s => vnote s!"unknown scope {s}"
   let (_, v) := act.run {}
   let status := if v.fails > 0 then "fail" else if v.diffs > 0 then "diff" else "ok"
